@@ -266,6 +266,10 @@ func (w *builder) putOffline(o *engine.OfflineShape, signer *SignKey, destSigTyp
 		sig = make([]byte, SigLen(destSigType))
 	case o.Forge == 3:
 		sig = NewSignKey(o.ForgeSeed, destSigType).Sign(signed, o.Seed)
+	case o.Forge == 4 && signer != nil && signer.Type == destSigType:
+		// genuinely signed by the identity, but for another expiry
+		was := append(be(4, o.AltExpires), signed[4:]...)
+		sig = signer.Sign(was, o.Seed)
 	case signer != nil && signer.Type == destSigType:
 		sig = signer.Sign(signed, o.Seed)
 	default:
